@@ -192,6 +192,36 @@ Proof.
   destruct (replay_batch_shape seed (sg_data sg) l) as [[l1 ->]|[st ->]]; cbn [bind]; [apply IH|right; eauto].
 Qed.
 
+Lemma prepare_shape : forall seed b (l : tabsT) created colrows,
+  val_or_panic (prepare seed b l created colrows).
+Proof.
+  induction b as [|tb rest IH]; cbn [prepare]; intros l created colrows; [left; eauto|].
+  destruct (create_if_empty seed (tb_name tb) l) as [l1 c1].
+  destruct (create_if_empty seed (meta_columns_of (tb_name tb)) l1) as [l2 c2].
+  destruct (ensure_cols_shape (tb_name tb) l2) as [[l3 ->]|[st ->]]; cbn [bind]; [|right; eauto].
+  destruct (lookup (tb_name tb) l3); [|right; eauto].
+  destruct (t_cols t); [apply IH|right; eauto].
+Qed.
+
+Lemma apply_batch_shape : forall b (l : tabsT), val_or_panic (apply_batch b l).
+Proof.
+  induction b as [|tb rest IH]; cbn [apply_batch]; intro l; [left; eauto|].
+  destruct (lookup (tb_name tb) l); [|right; eauto].
+  destruct (ingest_rows t (tb_cols tb) (tb_rows tb)); [apply IH|right; eauto].
+Qed.
+
+(* ingestion: a state, Blocked (exactly when the accounted log size exceeds the limit), or a panic *)
+Lemma ingest_blocked : forall c b bytes s,
+  ingest c b bytes s = Blocked <-> c_max_wal_bytes c <? wal_size s = true.
+Proof.
+  intros c b bytes s. unfold ingest. destruct (c_max_wal_bytes c <? wal_size s); [tauto|].
+  split; [|discriminate].
+  destruct (prepare_shape (c_seed c) b (tabs s) [] []) as [[[[l1 created] colrows] ->]|[st ->]];
+    cbn [bind]; [|discriminate].
+  destruct (apply_batch_shape (b ++ meta_tables_batch created ++ colrows) l1) as [[l2 ->]|[st ->]];
+    cbn [bind]; discriminate.
+Qed.
+
 Lemma replay_panic : forall seed w ex (l : tabsT) st,
   replay seed w ex l = Panic st ->
   st = SNonContiguous \/ st = SNoTable \/ st = SCatalogue \/ st = SColsNotInit.
